@@ -21,7 +21,7 @@ from ..absint import TOP, Evaluator, Obj, Sym, Unmodelled
 from ..geometry import FACES, NS, POSITIONS, SHIFTS, length, neighbours
 from ..harness import dispatch_models, run_dispatch, sig_1d, da_attr_models, da_method_models
 from ..registry import extract, parse_signature
-from ..seqsem import AxisDiscipline, Red, interp_np, lin
+from ..seqsem import AxisDiscipline, LengthMismatch, Red, interp_np, lin
 from ..xmodel import COMMON_MODELS, dimsym, make_da, make_grid
 from .c09 import _kernel_on, _show
 
@@ -134,14 +134,14 @@ def check(ctx):
             if not isinstance(e.result, Obj):
                 ctx.unknown("R01.1", inst, f"kernel of gridops.{e.name} not modelled: {e.result}")
                 continue
-            bw = e.options.get("boundary_width")
+            bw = e.attrs.get("boundary_width")
             if bw is None:
                 bw = {}
             if not isinstance(bw, dict) or any(k != dn for k in bw):
                 ctx.report("R01.1", e.fi, f"{inst} boundary_width", f"gridops.{e.name}: boundary_width {bw!r} does not name the signature's axis `{dn}`", e.deco)
                 continue
             w = bw.get(dn, (0, 0))
-            if e.options.get("pad_before_func", True) is not True:
+            if e.attrs.get("pad_before_func") is not True:
                 ctx.report("R01.1", e.fi, f"{inst} pad_before_func", f"gridops.{e.name} pads after the stencil: boundary cells would not enter the stencil", e.deco)
                 continue
             prob = None
@@ -162,6 +162,8 @@ def check(ctx):
                         break
             except AxisDiscipline as ex:
                 prob = str(ex)
+            except LengthMismatch as ex:
+                prob = f"N={N}: {ex}"
             except Unmodelled as ex:
                 ctx.unknown("R01.1", inst, f"gridops.{e.name}: {ex}")
                 continue
@@ -434,6 +436,35 @@ def _check_default_shifts(ctx, P):
             ctx.report("R01.4", fi, "default shift onto itself", "a default shift from a position to itself is accepted")
     except Unmodelled as e:
         ctx.unknown("R01.4", "user default shifts", str(e))
+    # ... and reaches the axis from the Grid constructor: Grid(default_shifts={axis: {...}})
+    gfi = P.func("grid:Grid.__init__")
+    AXn, AYn = Sym("AX"), Sym("AY")
+
+    def make():
+        coords = {a: {"center": dimsym(a.name, "center"), "left": dimsym(a.name, "left"), "right": dimsym(a.name, "right")} for a in (AXn, AYn)}
+        dims = tuple(d for c in coords.values() for d in c.values())
+        ds = Obj("Dataset", "ds", (), {"dims": dims, "__isinstance__": ("Dataset",)})
+        me = Obj("Grid", "self", (), {"__class__": "grid:Grid"})
+        return dict(self=me, ds=ds, coords=coords, periodic=True, fill_value=None, default_shifts={AXn: {"center": "right"}}, boundary=None, face_connections=None, metrics=None,
+                    autoparse_metadata=False)
+
+    try:
+        outs = Evaluator(P, models={"warnings.warn": lambda ev, a, k, n: None}).run_paths(gfi, make)
+        bad = None
+        for o in outs:
+            axes = o.env.get("self").attrs.get("axes") if o.kind == "return" else None
+            if not isinstance(axes, dict):
+                bad = f"{o.kind} {o.value!r}"
+                continue
+            got = {a.name: axes[a].attrs.get("_default_shifts", {}).get("center") for a in (AXn, AYn)}
+            if got != {"AX": "right", "AY": "left"}:
+                bad = f"default shift of the centre position is {got}; the user's entry for AX (right) must reach that axis, AY keeps the documented fallback (left)"
+        if bad:
+            ctx.report("R01.4", gfi, "Grid(default_shifts=...) reaches the axis", bad)
+        else:
+            ctx.ok("R01.4", "Grid(default_shifts=...) reaches the axis", "per-axis entry forwarded, other axes keep the fallback")
+    except Unmodelled as e:
+        ctx.unknown("R01.4", "Grid(default_shifts=...)", str(e))
 
 
 # ------------------------------------------------------------------ _pad_basic
